@@ -153,7 +153,7 @@ def edits(D, first=-1, K=1, thorough_elements=False):
 
     def run(a):
         db = _base()
-        db.sql, db.dbml                 # a first rendering before any edit
+        db.sql                          # a first rendering before any edit
         nm = text_of(a, 'n', K)
         seq = []
         intent = [list(x) for x in REF0]
@@ -161,9 +161,7 @@ def edits(D, first=-1, K=1, thorough_elements=False):
             code = first if (step == 0 and first >= 0) else a[f'o{step}']
             seq.append(EDITS[code])
             if step > 0:
-                db.sql, db.dbml          # renderings between edits must leave nothing behind
-                for r in db.refs:
-                    r.sql
+                db.sql                   # a rendering between edits must leave nothing behind (cached orders, join tables ...)
             _apply(db, EDITS[code], nm, step)
             _track(intent, EDITS[code])
         db._vp_intent = intent
